@@ -262,6 +262,11 @@ func (e *Exec) objValue(obj types.Object, c *Ctx) Term {
 		}
 	case *types.Var:
 		t := e.prog.TypeOf(o.Type(), c.fr.subst)
+		if !o.IsField() && o.Pkg() != nil && o.Parent() == o.Pkg().Scope() {
+			if v, ok := e.finalGlobal(o, c); ok {
+				return v
+			}
+		}
 		return e.get(c.st, e.keyOf(o), t)
 	case *types.Nil:
 		return Term{"0", tNil}
@@ -612,6 +617,9 @@ func (e *Exec) binop(op token.Token, l, r Term, c *Ctx, n ast.Node) Term {
 	case token.SUB:
 		s = fmt.Sprintf("(- %s %s)", l.S, r.S)
 	case token.MUL:
+		if fm, ok := e.floorMulPattern(l, r); ok {
+			return Term{fm, rt}
+		}
 		s = fmt.Sprintf("(* %s %s)", l.S, r.S)
 	case token.QUO:
 		if !c.spec {
@@ -1018,6 +1026,9 @@ func (e *Exec) compositeLit(v *ast.CompositeLit, c *Ctx, addr bool) Term {
 		}
 		return m
 	}
+	if t.K == KOpaque {
+		return e.Zero(t)
+	}
 	e.errorf("%s: unsupported composite literal of %s", e.curPos, t)
 	return Term{e.vc.FreshConst("unk", e.Sort(t)), t}
 }
@@ -1263,4 +1274,107 @@ func (e *Exec) modelVars(st *State, fr *Frame) map[string]string {
 		}
 	}
 	return m
+}
+
+// finalGlobal: a package-level variable with an initialiser that is never assigned (nor has its
+// address taken) in its package is evaluated from its initialiser (effectively a constant).
+func (e *Exec) finalGlobal(v *types.Var, c *Ctx) (Term, bool) {
+	key := e.keyOf(v)
+	if t, ok := e.globalVal[key]; ok {
+		return t, t.T != nil
+	}
+	e.globalVal[key] = Term{}
+	pk := e.prog.pkgs[v.Pkg().Path()]
+	if pk == nil || pk.TypesInfo == nil || !strings.HasPrefix(pk.PkgPath, "lunar/") {
+		return Term{}, false
+	}
+	var init ast.Expr
+	assigned := false
+	for _, f := range pk.Syntax {
+		ast.Inspect(f, func(n ast.Node) bool {
+			switch x := n.(type) {
+			case *ast.ValueSpec:
+				for i, nm := range x.Names {
+					if pk.TypesInfo.Defs[nm] == v && len(x.Values) == len(x.Names) {
+						init = x.Values[i]
+					}
+				}
+			case *ast.AssignStmt:
+				for _, l := range x.Lhs {
+					if id, ok := unparen(l).(*ast.Ident); ok && pk.TypesInfo.Uses[id] == v {
+						assigned = true
+					}
+				}
+			case *ast.IncDecStmt:
+				if id, ok := unparen(x.X).(*ast.Ident); ok && pk.TypesInfo.Uses[id] == v {
+					assigned = true
+				}
+			case *ast.UnaryExpr:
+				if x.Op == token.AND {
+					if id, ok := unparen(x.X).(*ast.Ident); ok && pk.TypesInfo.Uses[id] == v {
+						assigned = true
+					}
+				}
+			}
+			return true
+		})
+	}
+	if init == nil || assigned {
+		return Term{}, false
+	}
+	switch init.(type) {
+	case *ast.CallExpr, *ast.BasicLit, *ast.Ident, *ast.SelectorExpr, *ast.BinaryExpr, *ast.UnaryExpr:
+	default:
+		return Term{}, false
+	}
+	fr := &Frame{info: pk.TypesInfo, pkg: pk, names: map[string]string{}, ntypes: map[string]*Type{}, closures: map[string]*ast.FuncLit{}}
+	scratch := &State{pc: "true", vars: map[string]Term{}}
+	nerr := len(e.errors)
+	val := e.eval(init, &Ctx{st: scratch, fr: fr})
+	if len(e.errors) > nerr || scratch.pc != "true" {
+		e.errors = e.errors[:nerr]
+		return Term{}, false
+	}
+	t := e.prog.TypeOf(v.Type(), nil)
+	val = e.coerce(val, t, scratch)
+	n := Term{e.vc.Define("global_"+v.Name(), e.Sort(val.T), val.S), val.T}
+	e.globalVal[key] = n
+	e.note("package variable %s.%s is never assigned: evaluated from its initialiser", v.Pkg().Name(), v.Name())
+	return n, true
+}
+
+// floorMulPattern recognises (a / b) * b (and b * (a / b)) on integers and replaces the non-linear term
+// by floormul(a, b) with its defining facts: for a >= 0, b > 0: fm <= a < fm + b and fm is a multiple of b.
+func (e *Exec) floorMulPattern(l, r Term) (string, bool) {
+	try := func(d, b Term) (string, bool) {
+		pre := "(godiv "
+		if !strings.HasPrefix(d.S, pre) || !strings.HasSuffix(d.S, " "+b.S+")") {
+			return "", false
+		}
+		a := strings.TrimSuffix(strings.TrimPrefix(d.S, pre), " "+b.S+")")
+		return e.floorMul(a, b.S), true
+	}
+	if l.T.K != KInt || r.T.K != KInt {
+		return "", false
+	}
+	if s, ok := try(l, r); ok {
+		return s, true
+	}
+	return try(r, l)
+}
+
+func (e *Exec) floorMul(a, b string) string {
+	e.vc.Decl("fun:floormul", "(declare-fun floormul (Int Int) Int)")
+	e.vc.Decl("fun:gf!multipleOf!Int_Int", "(declare-fun gf!multipleOf!Int_Int (Int Int) Bool)")
+	an, bn := a, b
+	if !isAtom(an) {
+		an = e.vc.Define("fm_a", "Int", a)
+	}
+	if !isAtom(bn) {
+		bn = e.vc.Define("fm_b", "Int", b)
+	}
+	fm := fmt.Sprintf("(floormul %s %s)", an, bn)
+	e.vc.Fact(fmt.Sprintf("(=> (and (>= %s 0) (> %s 0)) (and (<= %s %s) (< %s (+ %s %s)) (gf!multipleOf!Int_Int %s %s)))", an, bn, fm, an, an, fm, bn, fm, bn))
+	e.externs["arithmetic fact: (a/b)*b for a >= 0, b > 0 is the largest multiple of b not above a (non-linear term replaced by floormul + multipleOf)"] = true
+	return fm
 }
